@@ -85,6 +85,14 @@ def r_typed_extract(cx):
               "declared type are accepted or valid ones rejected" % (
                   v, ", ".join(sorted(used)) or "nothing", ", ".join(sorted(EXPECT[v])) or "no numeric parser"),
               where or cx.where(f.term(a)["span"]))
+        # a value of the wrong type is an error naming the parameter: the arm can return Err(BadParam(key, value))
+        if EXPECT[v]:
+            bads = [bb for bb, i, st in f.all_stmts() if st["k"] == "assign" and st["rv"]["k"] == "agg" and
+                    st["rv"].get("adt") == "Error" and st["rv"].get("vname") == "BadParam" and f.dominates(a, bb)]
+            cx.ob("R-TYPED-EXTRACT", "rejects/%s" % v, bool(bads),
+                  "a malformed %s value is rejected with BadParam" % v.lower() if bads else
+                  "the %s arm of ParsedParameters::new has no BadParam error return any more: a malformed value is "
+                  "silently replaced (by the default) or reported as missing" % v, cx.where(f.term(a)["span"]))
         # the stored value is the parser's result itself (no lossy conversion between parser and table)
         if v in ("Natural", "Integer"):
             for bb, t in f.calls():
